@@ -56,6 +56,7 @@ func run(b *harness.B) {
 	r := &runner{b: b, rng: b.Rng}
 	if b.Batch == 0 {
 		fixedCases(r)
+		directed(b)
 	}
 	budget := int64(b.Pick(800_000, 14_000_000))
 	netRng := b.SubRng("netgen")
@@ -94,7 +95,7 @@ func main() {
 			"plus ValidateHeader cases (accepting header really mined, each condition violated singly and in combination) and pairs for SufficientlyHeavierThan. " +
 			"Distinct shape = (family, era, timestamp model, clamp side hit lower/upper/inside/unchanged/reset, block interval, difficulty magnitude class, fork boundary touched, header/v1/v2 block form).",
 		Assume: []string{
-			"stated domain: BlockInterval >= 1s; V2.FinalCutHeight >= V2.AllowHeight; NonceFactor >= 1",
+			"generated networks keep BlockInterval >= 1s, V2.FinalCutHeight >= V2.AllowHeight and NonceFactor >= 1 so that ordinary histories can run; the edge of that domain is judged by the directed histories of batch 0 (one fixed witness each)",
 			"a history ends (counted, not judged) when difficulty exceeds 2^192 or stays <= 2 for 2500 steps past the last fork",
 			"targetTimestamp is the timestamp of the ancestor at height max(0, childHeight-1000), as the chain manager supplies it",
 			"ratio clamps are compared with one unit of integer rounding on each of the two floored difficulties plus a relative 2^-50",
